@@ -28,6 +28,7 @@ type sysAct struct {
 	L     int64    `json:"l"`
 	V     int64    `json:"v"`
 	E     string   `json:"e"`
+	Nm    string   `json:"nm"`
 	P     string   `json:"p"`
 	Acc   []string `json:"acc"`
 	Al    []string `json:"al"`
@@ -196,19 +197,42 @@ func (r *replayer) call(a sysAct) callResult {
 	return callResult{}
 }
 
-// bindExt records the real node of a freshly published extension (extension type names
-// are unique, so Lookup returns the tree node itself).
+// bindExt records the real node of a freshly published extension: the pointer seen by the
+// ext.published hook (type strings need not be unique, so Lookup cannot be used).
 func (r *replayer) bindExt(a sysAct) bool {
-	h := mimetype.VerifHook
-	mimetype.VerifHook = nil
-	n := mimetype.Lookup(r.m.realName(a.E))
-	mimetype.VerifHook = h
-	if n != nil {
-		r.m.node[a.E] = n
-		r.m.id[n] = a.E
-		return true
+	lastPubMu.Lock()
+	n := lastPub
+	lastPub = nil
+	lastPubMu.Unlock()
+	if n == nil {
+		return false
 	}
-	return false
+	// the node must really be in the tree
+	inTree := false
+	for _, t := range mimetype.VerifTree() {
+		if t.M == n {
+			inTree = true
+		}
+	}
+	if !inTree {
+		return false
+	}
+	r.m.node[a.E] = n
+	r.m.id[n] = a.E
+	return true
+}
+
+var (
+	lastPubMu sync.Mutex
+	lastPub   *mimetype.MIME
+)
+
+func notePublished(ev mimetype.VerifEvent) {
+	if ev.Point == "ext.published" {
+		lastPubMu.Lock()
+		lastPub = ev.Child
+		lastPubMu.Unlock()
+	}
 }
 
 func (r *replayer) checkResult(h *sysHist, cr callResult, expPath []string, expFound, expFP string, hadExt bool, conc bool) {
@@ -297,8 +321,20 @@ func (r *replayer) checkFinal(h *sysHist, conc bool) {
 }
 
 // ---------------------------------------------------------------- direct (1 goroutine)
+// noteNames records which extensions are registered under another extension's type string.
+func (r *replayer) noteNames(h *sysHist) {
+	for _, a := range h.H {
+		if a.A == "EBuild" && a.Nm != "" && a.Nm != a.E {
+			r.m.alias[a.E] = a.Nm
+		}
+	}
+}
+
 func (r *replayer) replayDirect(h *sysHist) {
 	r.m.reset()
+	r.noteNames(h)
+	mimetype.VerifHook = notePublished
+	defer func() { mimetype.VerifHook = nil }()
 	r.owners = r.owners[:0]
 	r.earlier = r.earlier[:0]
 	hadExt := false
@@ -339,6 +375,7 @@ type proc struct {
 
 func (r *replayer) replayGated(h *sysHist, timeout time.Duration) (ok bool) {
 	r.m.reset()
+	r.noteNames(h)
 	r.owners = r.owners[:0]
 	r.earlier = r.earlier[:0]
 	procs := map[string]*proc{}
@@ -362,6 +399,7 @@ func (r *replayer) replayGated(h *sysHist, timeout time.Duration) (ok bool) {
 	var resMu sync.Mutex
 
 	mimetype.VerifHook = func(ev mimetype.VerifEvent) {
+		notePublished(ev)
 		if !gatePoints[ev.Point] {
 			return
 		}
